@@ -100,6 +100,7 @@ def run_shard(spec, ctx):
             ctx.count("other_individual_with_absurd_value")
         dfB.loc[other, feats] = vals
         censor_others = events and nb_ev == 1
+        b2_tables = []
         if events and nb_ev != 1:
             # competing events: the others keep their events in cohort B (every kind of event stays present).  Separately: the cohort in which the
             # others are censored, read with the announced number of events - refused by the reader when a kind of event is then absent
@@ -112,6 +113,7 @@ def run_shard(spec, ctx):
             for tg in cands:
                 dfB2 = dfB.copy()
                 dfB2.loc[dfB2["ID"] != tg, "EVENT_BOOL"] = 0
+                b2_tables.append((tg, dfB2))
                 try:
                     dsB2 = _Dataset2(_Data2.from_dataframe(dfB2, data_type="joint", factory_kws={"nb_events": nb_ev}))
                 except Exception:
@@ -194,6 +196,30 @@ def run_shard(spec, ctx):
         if changed_others:
             ctx.count("others_terms_really_changed")
             ctx.distinct(case["model"], "B", "terms")
+        # ---- B2 (competing events): the others' events censored, the table read WITHOUT announcing the number of events (the reader then sizes the
+        # event columns from the kinds of events present in the cohort).  Either the reader or the model refuses the cohort, or the terms of the
+        # individual whose data did not change are what they are in cohort A
+        for tg, dfB2 in b2_tables:
+            from leaspy.io.data import Data as _Data3, Dataset as _Dataset3
+
+            ctx.count("competing_event_cohorts_read_without_announcing_the_number_of_events")
+            try:
+                with contextlib.redirect_stdout(io.StringIO()):
+                    dsU = _Dataset3(_Data3.from_dataframe(dfB2, data_type="joint"))
+                sU = state_for(dsU, list(range(n)))
+                rU, rA = list(dsU.indices).index(tg), ids.index(tg)
+                got = {t: tv(sU[t])[rU] for t in ind_terms}
+            except Exception as e:
+                ctx.count("competing_event_cohorts_with_an_absent_kind_refused")
+                ctx.note("competing_event_cohort_refusal_" + type(e).__name__, str(e)[:120])
+                continue
+            ctx.count("competing_event_cohorts_with_an_absent_kind_evaluated")
+            for t in ind_terms:
+                if not sh.bit_same(tv(sA[t])[rA], got[t]):
+                    viol("indep/term-depends-on-the-kinds-of-events-of-the-others", f"'{t}' of individual {tg} changed when only the other individuals' events were censored "
+                         f"(event data of the cohort: {tuple(ds.event_bool.shape)} -> {tuple(dsU.event_bool.shape)}, model with {nb_ev} events)",
+                         A=tv(sA[t])[rA].flatten()[:4].tolist(), B=got[t].flatten()[:4].tolist())
+                    break
         # ---- totals --------------------------------------------------------------------------------------
         for tot, per in (("nll_attach", "nll_attach_ind"), ("nll_regul_ind_sum", "nll_regul_ind_sum_ind")):
             if tot in names and per in names:
